@@ -22,16 +22,19 @@ LEVEL = "exploration"
 
 ATOMS = ["x", "y z", "p [[ q", "p ]] q", "[[a]]", "{{PAGENAME:}}", "{{PAGENAME}}", "{{#if:|}}", "{{t|}}", "{{t||x}}", "{{lc:}}"]
 # further atoms: used bare and under one wrapper only (they do not multiply through the depth-2 products)
-EXTRA_ATOMS = ["r [1][2] s", "e [] f"]
+EXTRA_ATOMS = ["r [1][2] s", "e [] f", "-3", "+1", "}x"]   # the last three: cell texts that begin like a table marker
 WRAPS = ["'''%s'''", "''%s''", "[[a|%s]]", "{{t|%s}}", "{{t|k=%s}}", "{{#if:x|%s|z}}", '<span class="c">%s</span>',
          "<b>%s</b>", "[http://x.y %s]", "{{{p|%s}}}"]
 BLOCKS = [
     "%s\n", "==%s==\n", "===%s===\n", "*%s\n", "#%s\n", "*%s\n**%s\n", "*%s\n*%s\n", ";%s:%s\n", ";%s\n:%s\n",
     "{|\n|%s\n|}\n", '{| class="c"\n|+%s\n|-\n! %s !! %s\n|-\n| style="s" | %s || %s\n|}\n',
-    "{|\n|-\n|%s\n|%s\n|-\n!%s\n|}\n",
+    "{|\n|-\n|%s\n|%s\n|-\n!%s\n|}\n", "{|\n|%s||%s\n|}\n", "{|\n!%s!!%s\n|}\n",
     '{|\n! scope="col" | %s\n! id="h2" | %s\n|- class="r"\n| %s\n|}\n', '{| id="t"\n|+ class="k" |%s\n|-\n! colspan="2" | %s\n|}\n',
     '<div class="c"><span id="s">%s</span></div>\n', "{|\n|+ %s\n|}\n", "----\n", "<div>%s</div>\n", '<div id="i">\n%s\n</div>\n', ":%s\n",
 ]
+# cells glued to the inline cell separator; in the quick tier their second slot ranges over TIGHT_SECOND only
+TIGHT_BLOCKS = {"{|\n|%s||%s\n|}\n", "{|\n!%s!!%s\n|}\n"}
+TIGHT_SECOND = ["x", "-3", "+1", "}x", "'''x'''", "[[a]]", "{{t|x}}", "''-3''"]
 BLOCK_KINDS = set(LEVELK) | {K.ROOT, K.LIST, K.LIST_ITEM, K.TABLE, K.TABLE_CAPTION, K.TABLE_ROW, K.TABLE_HEADER_CELL,
                              K.TABLE_CELL, K.HLINE, K.PREFORMATTED, K.PRE}
 SELF_STANDING = set(LEVELK) | {K.LIST, K.TABLE, K.BOLD, K.ITALIC, K.LINK, K.TEMPLATE, K.PARSER_FN, K.HTML, K.HLINE,
@@ -300,7 +303,8 @@ def gen_docs(tier):
                 if not b.startswith("{|\n|+ "):
                     singles1.append(b % x)
         elif k == 2:
-            for x, y in itertools.product(i1, repeat=2):
+            second = TIGHT_SECOND if (q and b in TIGHT_BLOCKS) else i1
+            for x, y in itertools.product(i1, second):
                 docs.append(b % (x, y))
             for x in i1:
                 singles1.append(b % (x, x))
